@@ -3,7 +3,8 @@
 (* direction bin) of the step-granular watershed; checks C04 clauses and C20's native half. *)
 EXTENDS Watershed, Json
 
-CONSTANTS Vals, TWORUN, EMIT
+CONSTANTS Vals, TWORUN, EMIT,
+          PATTERNS   \* TRUE: inputs are the C20 pattern family instead of all grids over Vals
 
 VARIABLES e,      \* the input of the current run, C order
           w,      \* algorithm state record
@@ -17,7 +18,20 @@ RunConst(ee) == IF IsConst(ee) THEN [imi |-> <<>>, ind |-> <<>>, zp |-> <<>>, rn
                 ELSE [imi |-> Levels(ee), ind |-> SortedAddr(Levels(ee)), zp |-> ZP(ee),
                       rng |-> MaxF(ZIn(ee)) - MinF(ZIn(ee))]
 
-Init == /\ e \in [Px -> Vals]
+(* C20 pattern family for one shape: degenerate and adversarial inputs the property names *)
+FI(n) == n \div NTH   \* frequency index of C-order position n
+DJ(n) == n % NTH      \* direction index
+PatternSet ==
+  {[n \in Px |-> 0], [n \in Px |-> 1]}                                  \* all zero, constant
+  \cup {[n \in Px |-> IF n = k THEN 3 ELSE 0] : k \in Px}               \* single non-zero bin
+  \cup {[n \in Px |-> IF n = k THEN 0 ELSE 2] : k \in Px}               \* single hole
+  \cup {[n \in Px |-> IF n = 0 THEN 3 ELSE IF n = k THEN 2 ELSE 0] : k \in Px}   \* two peaks
+  \cup {[n \in Px |-> (FI(n) + DJ(n)) % 2]}                              \* checkerboard
+  \cup {[n \in Px |-> n], [n \in Px |-> NSPEC - 1 - n], [n \in Px |-> FI(n)], [n \in Px |-> DJ(n)]}  \* ramps
+  \cup {[n \in Px |-> ((n * n * 7) + (n * 3) + s) % 3] : s \in 0..2}     \* fixed pseudo-random over {0,1,2}
+  \cup {[n \in Px |-> IF DJ(n) = 0 \/ DJ(n) = NTH - 1 THEN 2 + (FI(n) % 2) ELSE 0]}   \* energy on both sides of the seam
+
+Init == /\ e \in (IF PATTERNS THEN PatternSet ELSE [Px -> Vals])
         /\ w = Start(e)
         /\ run = 1
         /\ first = {}
@@ -53,12 +67,14 @@ FairSpec == Spec /\ WF_vars(Next)
 
 (* ---- C20 native half ---- *)
 BoundsOK == w.st.ok
-TableOK == NeighOK /\ NeighIsAdj8
+\* the neighbour table is a constant of the run; evaluating it in the terminal states is enough and much cheaper
+TableOK == (w.pc \in {"done", "const"}) => (NeighOK /\ NeighIsAdj8)
 Terminates == <>(run = 3)
 
 (* ---- C04 ---- *)
 AllLabelled == w.pc = "done" => AllLabelledOK(w.st.imo)
 OnePerRegionalMax == w.pc = "done" => PostOK(w.st.imo, rc.imi, w.st.lab)
+PostDefsAgree == w.pc = "done" => (PostOK(w.st.imo, rc.imi, w.st.lab) = PostOKRef(w.st.imo, rc.imi, w.st.lab))
 ConstNoPartition == w.pc = "const" => IsConst(e)
 ShiftEquivariant == (run = 2 /\ w.pc \in {"done", "const"}) =>
                        IF w.pc = "const" THEN first = {} ELSE ClassesShift(w.st.imo, 0) = first
